@@ -42,6 +42,7 @@ type batch struct {
 	prelude string
 	extra   map[string]string // further files of the program (grammar frames with helper packages)
 	units   []*unit
+	group   bool // programs that each need a file of their own, sharing one reference binary (group_test.go)
 }
 
 func (b *batch) prog(units []*unit) (*Prog, error) {
@@ -386,7 +387,11 @@ func (ck *checker) report() {
 // symptomOf: what a failing shape looked like - kind of disagreement, number of
 // failing argument tuples, both outcomes of the first failing tuple.
 func symptomOf(m *mismatch) string {
-	return fmt.Sprintf("%s|%d|%s|go=%s|vm=%s", m.Kind, m.Count, m.Args, m.Go, m.VM)
+	s := fmt.Sprintf("%s|%d|%s|go=%s|vm=%s", m.Kind, m.Count, m.Args, m.Go, m.VM)
+	if m.Kind == "meta" {
+		s += "|" + reNum.ReplaceAllString(m.Diag, "N") // which disagreement of manifest / debug information
+	}
+	return s
 }
 
 var outMu sync.Mutex
@@ -873,6 +878,7 @@ func validBody(list []*node, ctx gctx) bool {
 // ---- work list -----------------------------------------------------------------------------------
 
 const batchSize = 300
+const soloGroup = 24
 
 func (ck *checker) buildBatches(thorough bool, stats map[string]any) []*batch {
 	var batches []*batch
@@ -880,13 +886,14 @@ func (ck *checker) buildBatches(thorough bool, stats map[string]any) []*batch {
 	shapes := allShapes(thorough)
 	byFam := map[string][]*unit{}
 	var fams []string
+	var solos []*unit
 	famCount := map[string]int{}
 	for i := range shapes {
 		s := &shapes[i]
 		famCount[s.Family]++
 		u := &unit{kind: "shape", shape: s}
 		if s.Solo {
-			batches = append(batches, &batch{name: "shape:" + s.Family + "/" + s.Tag, units: []*unit{u}})
+			solos = append(solos, u)
 			continue
 		}
 		if _, ok := byFam[s.Family]; !ok {
@@ -894,6 +901,24 @@ func (ck *checker) buildBatches(thorough bool, stats map[string]any) []*batch {
 		}
 		byFam[s.Family] = append(byFam[s.Family], u)
 	}
+	// programs with a file of their own: groups of soloGroup share a reference binary
+	if only := os.Getenv("C14_ONLY"); only != "" {
+		var kept []*unit
+		for _, u := range solos {
+			for _, o := range strings.Split(only, ",") {
+				if strings.Contains("shape:"+u.shape.Family+"/"+u.shape.Tag, o) {
+					kept = append(kept, u)
+					break
+				}
+			}
+		}
+		solos = kept
+	}
+	for i := 0; i < len(solos); i += soloGroup {
+		j := min(i+soloGroup, len(solos))
+		batches = append(batches, &batch{name: fmt.Sprintf("solo-group#%d", i/soloGroup), units: solos[i:j], group: true})
+	}
+	stats["programs_with_a_file_of_their_own"] = len(solos)
 	sort.Strings(fams)
 	for _, f := range fams {
 		us := byFam[f]
@@ -981,6 +1006,10 @@ func (ck *checker) buildBatches(thorough bool, stats map[string]any) []*batch {
 	if only := os.Getenv("C14_ONLY"); only != "" { // development aid: run only the files whose name contains one of the comma-separated substrings
 		var kept []*batch
 		for _, b := range batches {
+			if b.group {
+				kept = append(kept, b) // filtered above
+				continue
+			}
 			for _, o := range strings.Split(only, ",") {
 				if strings.Contains(b.name, o) {
 					kept = append(kept, b)
@@ -1019,7 +1048,15 @@ func TestCheck(t *testing.T) {
 	for _, b := range batches {
 		total += len(b.units)
 	}
-	fmt.Printf("C14 %s: %d programs in %d files\n", r.Tier, total, len(batches))
+	nFiles := 0
+	for _, b := range batches {
+		if b.group {
+			nFiles += len(b.units)
+		} else {
+			nFiles++
+		}
+	}
+	fmt.Printf("C14 %s: %d programs in %d files\n", r.Tier, total, nFiles)
 	budget := 165.0
 	if r.Thorough() {
 		budget = 22 * 60
@@ -1044,13 +1081,18 @@ func TestCheck(t *testing.T) {
 				if i >= len(batches) || r.Elapsed() > soft || r.Expired() {
 					return
 				}
+				if batches[i].group {
+					ck.runGroup(batches[i])
+					atomic.AddInt64(&done, int64(len(batches[i].units)))
+					continue
+				}
 				ck.runUnits(batches[i], batches[i].units)
 				atomic.AddInt64(&done, 1)
 			}
 		}()
 	}
 	wg.Wait()
-	if int(done) < len(batches) {
+	if int(done) < nFiles {
 		r.Capped()
 	}
 	ck.report()
@@ -1068,7 +1110,10 @@ func TestCheck(t *testing.T) {
 		"traces_validated_against_impl": int(ck.nCalls.Get()),
 		"files_compiled_by_both":        int(ck.nBatches.Get()),
 		"programs_generated":            total,
-		"files_generated":               len(batches),
+		"files_generated":               nFiles,
+		"reference_binaries_shared_by_a_group":         int(nGroupBuilds.Get()),
+		"programs_run_from_a_shared_reference_binary":  int(nGroupedProgs.Get()),
+		"groups_built_program_by_program_instead":      int(nGroupFallbacks.Get()),
 		"files_completed":               int(done),
 		"calls_excluded_value_beyond_64_bits_seen_in_vm": int(ck.nBig.Get()),
 		"units_rejected_by_neo_go_compiler":             int(ck.nNeoRejected.Get()),
@@ -1085,6 +1130,7 @@ func TestCheck(t *testing.T) {
 		"cpu_ms_reference_build":                        int(tGoBuild.Get()),
 		"cpu_ms_vm_runs":                                int(tVM.Get()),
 		"generated_code":                                cstats.report(),
+		"initialize_and_deploy_frames":                  fstats.report(),
 		"manifest_method_sets_compared":                 int(nMetaSets.Get()),
 		"debug_info_ranges_checked":                     int(nMetaRanges.Get()),
 	}
@@ -1108,6 +1154,8 @@ func TestCheck(t *testing.T) {
 		"programs that neo-go's compiler rejects are counted, not reported (the property speaks about compiled functions)",
 		"statement-grammar functions are emitted only if an interval analysis bounds all integer intermediates by 2^62; in addition every VM run is stepped and a call is excluded if an Integer beyond 64 bits reaches the stack top",
 		"calls of functions that change package state run in a fresh reference process each, like every VM invocation starts from _initialize",
+		"a program that declares _deploy functions: the VM runs _initialize, then the contract's _deploy method (null, false), then the function, as contexts of one script (shared static slots); the reference driver calls the packages' _deploy functions in package initialisation order, main's last, before the function",
+		"programs that need a file of their own are built into one reference binary per group of 24 (each as a package of its own, its packages renamed below it); a failing program is confirmed and replayed with a binary of its own",
 	})
 }
 
